@@ -162,6 +162,86 @@ fn exec_len_hint(input: &Value) -> Value {
     case
 }
 
+/// kind `trace_len_hint` (known finding C16-trace-tuple-len-alloc): `from_samples` on records whose field is a tuple /
+/// tuple struct / tuple variant that ANNOUNCES `n` elements and sends two.  `Tracer::ensure_tuple(len)` creates one field
+/// tracer per announced element: usize::MAX panics with "capacity overflow" (2^40 would abort on allocation failure and is
+/// deliberately not run).  The honest announcement (2) is recorded beside it.
+struct AnnounceTuple(&'static str, usize);
+
+impl Serialize for AnnounceTuple {
+    fn serialize<S: Serializer>(&self, s: S) -> Result<S::Ok, S::Error> {
+        use serde::ser::{SerializeTuple, SerializeTupleStruct, SerializeTupleVariant};
+        match self.0 {
+            "tuple" => {
+                let mut q = s.serialize_tuple(self.1)?;
+                q.serialize_element(&1i32)?;
+                q.serialize_element("a")?;
+                q.end()
+            }
+            "tuple_struct" => {
+                let mut q = s.serialize_tuple_struct("T", self.1)?;
+                q.serialize_field(&1i32)?;
+                q.serialize_field("a")?;
+                q.end()
+            }
+            "tuple_variant" => {
+                let mut q = s.serialize_tuple_variant("E", 0, "A", self.1)?;
+                q.serialize_field(&1i32)?;
+                q.serialize_field("a")?;
+                q.end()
+            }
+            _ => {
+                let mut q = s.serialize_seq(Some(self.1))?;
+                q.serialize_element(&1i32)?;
+                q.serialize_element(&2i32)?;
+                q.end()
+            }
+        }
+    }
+}
+
+#[derive(serde::Serialize)]
+struct AnnounceRecord {
+    a: AnnounceTuple,
+}
+
+fn trace_len_hint_cases() -> Vec<Value> {
+    let mut out = Vec::new();
+    let mut k = 0;
+    for shape in ["tuple", "tuple_struct", "tuple_variant", "seq"] {
+        for n in [2u64, 3, u64::MAX] {
+            out.push(json!({"id": format!("overflow-0005{k:02}"), "seed": 0, "kind": "trace_len_hint", "shape": shape, "n": n}));
+            k += 1;
+        }
+    }
+    out
+}
+
+fn exec_trace_len_hint(input: &Value) -> Value {
+    use serde_arrow::marrow::datatypes::Field;
+    use serde_arrow::schema::{SchemaLike, TracingOptions};
+    let n = input["n"].as_u64().unwrap() as usize;
+    let shape: &'static str = match input["shape"].as_str().unwrap() {
+        "tuple" => "tuple",
+        "tuple_struct" => "tuple_struct",
+        "tuple_variant" => "tuple_variant",
+        _ => "seq",
+    };
+    let run = |n: usize| {
+        outcome::run(|| {
+            let items = [AnnounceRecord { a: AnnounceTuple(shape, n) }, AnnounceRecord { a: AnnounceTuple(shape, n) }];
+            let fields = Vec::<Field>::from_samples(&items, TracingOptions::default())?;
+            Ok::<Value, serde_arrow::Error>(json!({"fields": fields.len()}))
+        })
+    };
+    let imp = run(n);
+    let honest = run(2);
+    let mut case = input.clone();
+    case.as_object_mut().unwrap().insert("impl".into(), imp);
+    case.as_object_mut().unwrap().insert("honest".into(), honest);
+    case
+}
+
 fn deep_term_cases() -> Vec<Value> {
     [0u64, 1, 3, 32, 33, 1000, 100_000, 1_000_000]
         .iter()
@@ -189,6 +269,8 @@ pub fn gen(ctx: &Ctx) -> Vec<Value> {
         let mut cases = deep_term_cases();
         cases.extend(union_rows_cases(false));
         cases.extend(len_hint_cases());
+    cases.extend(trace_len_hint_cases());
+        cases.extend(trace_len_hint_cases());
         return cases;
     }
     let mut cases = vec![
@@ -239,6 +321,9 @@ pub fn exec(input: &Value) -> Value {
     }
     if input["kind"] == "union_rows" {
         return exec_union_rows(input);
+    }
+    if input["kind"] == "trace_len_hint" {
+        return exec_trace_len_hint(input);
     }
     if input["kind"] == "len_hint" {
         return exec_len_hint(input);
